@@ -21,18 +21,18 @@ theorem gpair_ofRes_bind {α β} (hR : RelOK W R) (r : Res Cause α) (f f' : α 
     exact ⟨ops, ops', o, h1, h1', r1⟩
   | err e =>
     intro env
-    have h0 : ∀ g : α → M β, TracedAt (M.ofRes (.err e) >>= g) env [] (.err (.plain e)) :=
-      fun g => tracedAt_bind_err (fun _ => rfl)
+    have h0 : ∀ g : α → M β, TracedAtL (M.ofRes (.err e) >>= g) env [] (.err (.plain e)) :=
+      fun g => tracedAtL_bind_err (fun _ => rfl)
     exact ⟨[], [], _, h0 f, h0 f', hR.nil⟩
   | panic w =>
     intro env
-    have h0 : ∀ g : α → M β, TracedAt (M.ofRes (.panic w : Res Cause α) >>= g) env [] (.panic w) :=
-      fun g => tracedAt_bind_panic (fun _ => rfl)
+    have h0 : ∀ g : α → M β, TracedAtL (M.ofRes (.panic w : Res Cause α) >>= g) env [] (.panic w) :=
+      fun g => tracedAtL_bind_panic (fun _ => rfl)
     exact ⟨[], [], _, h0 f, h0 f', hR.nil⟩
   | unmodelled w =>
     intro env
-    have h0 : ∀ g : α → M β, TracedAt (M.ofRes (.unmodelled w : Res Cause α) >>= g) env [] (.unmodelled w) :=
-      fun g => tracedAt_bind_unmodelled (fun _ => rfl)
+    have h0 : ∀ g : α → M β, TracedAtL (M.ofRes (.unmodelled w : Res Cause α) >>= g) env [] (.unmodelled w) :=
+      fun g => tracedAtL_bind_unmodelled (fun _ => rfl)
     exact ⟨[], [], _, h0 f, h0 f', hR.nil⟩
 
 theorem gpair_inc_bind {β} (hR : RelOK W R) (c : RCtx) (hc : IncQuiet c) (line : Nat) (fn : Bytes) (env0 : Env)
@@ -48,20 +48,20 @@ theorem gpair_inc_bind {β} (hR : RelOK W R) (c : RCtx) (hc : IncQuiet c) (line 
   | fail e =>
     intro env
     have h0 : ∀ g : Status × Bytes → M β,
-        TracedAt ((fun s => (Prog.fail e : Prog (Status × Bytes)).bind (fun r => .ret (r, s)) : M (Status × Bytes)) >>= g)
-          env [] (.err e) := fun g => tracedAt_bind_err (fun _ => rfl)
+        TracedAtL ((fun s => (Prog.fail e : Prog (Status × Bytes)).bind (fun r => .ret (r, s)) : M (Status × Bytes)) >>= g)
+          env [] (.err e) := fun g => tracedAtL_bind_err (fun _ => rfl)
     exact ⟨[], [], _, h0 k, h0 k', hR.nil⟩
   | panic w =>
     intro env
     have h0 : ∀ g : Status × Bytes → M β,
-        TracedAt ((fun s => (Prog.panic w : Prog (Status × Bytes)).bind (fun r => .ret (r, s)) : M (Status × Bytes)) >>= g)
-          env [] (.panic w) := fun g => tracedAt_bind_panic (fun _ => rfl)
+        TracedAtL ((fun s => (Prog.panic w : Prog (Status × Bytes)).bind (fun r => .ret (r, s)) : M (Status × Bytes)) >>= g)
+          env [] (.panic w) := fun g => tracedAtL_bind_panic (fun _ => rfl)
     exact ⟨[], [], _, h0 k, h0 k', hR.nil⟩
   | unmodelled w =>
     intro env
     have h0 : ∀ g : Status × Bytes → M β,
-        TracedAt ((fun s => (Prog.unmodelled w : Prog (Status × Bytes)).bind (fun r => .ret (r, s)) : M (Status × Bytes)) >>= g)
-          env [] (.unmodelled w) := fun g => tracedAt_bind_unmodelled (fun _ => rfl)
+        TracedAtL ((fun s => (Prog.unmodelled w : Prog (Status × Bytes)).bind (fun r => .ret (r, s)) : M (Status × Bytes)) >>= g)
+          env [] (.unmodelled w) := fun g => tracedAtL_bind_unmodelled (fun _ => rfl)
     exact ⟨[], [], _, h0 k, h0 k', hR.nil⟩
   | call b k0 => rw [hi] at hq; exact absurd hq (by simp [NoCalls])
 
@@ -151,20 +151,20 @@ theorem gpair_capture {α} (hR : RelOK W R) (hT : ∀ ops ops', R ops ops' → t
   cases o with
   | ok a env' =>
     refine ⟨[], [], .ok (a, twTotal {} ops) env', fun tw => ?_, fun tw => ?_, hR.nil⟩
-    · rw [captureM_of_traced m env env' ops a h1 tw]; rfl
-    · rw [captureM_of_traced m' env env' ops' a h1' tw, hT ops ops' r]; rfl
+    · rw [captureM_of_traced m env env' ops a h1.toTracedAt tw]; rfl
+    · rw [captureM_of_traced m' env env' ops' a h1'.toTracedAt tw, hT ops ops' r]; rfl
   | err e =>
     refine ⟨[], [], .err e, fun tw => ?_, fun tw => ?_, hR.nil⟩
-    · rw [captureM_of_traced_err m env ops e h1 tw]; rfl
-    · rw [captureM_of_traced_err m' env ops' e h1' tw]; rfl
+    · rw [captureM_of_traced_err m env ops e h1.toTracedAt tw]; rfl
+    · rw [captureM_of_traced_err m' env ops' e h1'.toTracedAt tw]; rfl
   | panic w =>
     refine ⟨[], [], .panic w, fun tw => ?_, fun tw => ?_, hR.nil⟩
-    · rw [captureM_of_traced_panic m env ops w h1 tw]; rfl
-    · rw [captureM_of_traced_panic m' env ops' w h1' tw]; rfl
+    · rw [captureM_of_traced_panic m env ops w h1.toTracedAt tw]; rfl
+    · rw [captureM_of_traced_panic m' env ops' w h1'.toTracedAt tw]; rfl
   | unmodelled w =>
     refine ⟨[], [], .unmodelled w, fun tw => ?_, fun tw => ?_, hR.nil⟩
-    · rw [captureM_of_traced_unmodelled m env ops w h1 tw]; rfl
-    · rw [captureM_of_traced_unmodelled m' env ops' w h1' tw]; rfl
+    · rw [captureM_of_traced_unmodelled m env ops w h1.toTracedAt tw]; rfl
+    · rw [captureM_of_traced_unmodelled m' env ops' w h1'.toTracedAt tw]; rfl
 
 theorem gpair_node_loop0 (hR : RelOK W R) (hd : ∀ b, DecoChunk b → W b) (c : RCtx) (line : Nat) (tr : Bool) (var : Bytes)
     (e : Expr) (mods : LoopMods) {b b' : List Node} (hb : GPair R (renderBlockBody c b) (renderBlockBody c b')) :
@@ -288,18 +288,18 @@ theorem hypRel_ok (V : Bytes → Prop) : RelOK V (HypRel V) where
     subst hx; exact hb
   flush := ⟨rfl, by simp⟩
 
-theorem tracedAt_trimNode (c : RCtx) (b : Bool) (env : Env) :
-    TracedAt (renderNode c (.trim b)) env [if b then .trimLeft else .trimRight] (.ok .done env) := by
-  have hp : TracedAt (pure Status.done : M Status) env [] (.ok .done env) := fun _ => rfl
+theorem tracedAtL_trimNode (c : RCtx) (b : Bool) (env : Env) :
+    TracedAtL (renderNode c (.trim b)) env [if b then .trimLeft else .trimRight] (.ok .done env) := by
+  have hp : TracedAtL (pure Status.done : M Status) env [] (.ok .done env) := fun _ => rfl
   cases b with
   | true =>
     unfold renderNode
-    have := tracedAt_mapFail (fun e => RawErr.located (wrapError c.cfg.path e invalidLoc))
-      (tracedAt_bind_ok (f := fun _ => (pure Status.done : M Status)) (tracedAt_trimLeft env) hp)
+    have := tracedAtL_mapFail (fun e => RawErr.located (wrapError c.cfg.path e invalidLoc))
+      (tracedAtL_bind_ok (f := fun _ => (pure Status.done : M Status)) (tracedAtL_trimLeft env) hp)
     simpa [wrapFailAt, EOut.mapErr] using this
   | false =>
     unfold renderNode
-    simpa using tracedAt_bind_ok (f := fun _ => (pure Status.done : M Status)) (tracedAt_trimRight env) hp
+    simpa using tracedAtL_bind_ok (f := fun _ => (pure Status.done : M Status)) (tracedAtL_trimRight env) hp
 
 /-- a hyphen in front of a sequence adds one trim operation to the left-hand trace -/
 theorem gpair_list_skip (V : Bytes → Prop) (c : RCtx) (b : Bool) {ns ns' : List Node}
@@ -309,7 +309,7 @@ theorem gpair_list_skip (V : Bytes → Prop) (c : RCtx) (b : Bool) {ns ns' : Lis
   obtain ⟨ops, ops', o, h1, h1', r⟩ := h env
   refine ⟨[if b then .trimLeft else .trimRight] ++ ops, ops', o, ?_, h1', ?_, ?_⟩
   · rw [renderList]
-    exact tracedAt_bind_ok (tracedAt_trimNode c b env) h1
+    exact tracedAtL_bind_ok (tracedAtL_trimNode c b env) h1
   · rw [r.1, eraseTrims_append]
     cases b <;> simp [eraseTrims]
   · intro x hx
@@ -466,3 +466,71 @@ theorem rootResult_done (ops : List WOp) (o : EOut Status) (out : Bytes) (h : ro
   | err e => simp [rootResult] at h
   | panic w => simp [rootResult] at h
   | unmodelled w => simp [rootResult] at h
+
+/-! ## The underlying write calls of `Render`, read off the trace -/
+
+theorem tracedAtL_blockBody_done (c : RCtx) (body : List Node) (env env' : Env) (ops : List WOp)
+    (h : TracedAtL (renderList c body) env ops (.ok .done env')) :
+    TracedAtL (renderBlockBody c body) env (ops ++ [.flush]) (.ok .done env') := by
+  unfold renderBlockBody
+  refine tracedAtL_bind_ok h ?_
+  have h1 : TracedAtL (wrapFailAt c.cfg.path invalidLoc flushM) env' [.flush] (.ok () env') :=
+    tracedAtL_mapFail _ (tracedAtL_flush env')
+  have h2 : TracedAtL (pure Status.done : M Status) env' [] (.ok .done env') := fun _ => rfl
+  exact tracedAtL_bind_ok (f := fun _ => (pure Status.done : M Status)) h1 h2
+
+theorem tracedAtL_blockBody_other (c : RCtx) (body : List Node) (env : Env) (ops : List WOp) (o : EOut Status)
+    (h : TracedAtL (renderList c body) env ops o) (hnd : ∀ env', o ≠ .ok .done env') :
+    TracedAtL (renderBlockBody c body) env ops o := by
+  unfold renderBlockBody
+  cases o with
+  | ok st env' =>
+    cases st with
+    | done => exact absurd rfl (hnd env')
+    | brk e =>
+      have h2 : TracedAtL (pure (Status.brk e) : M Status) env' [] (.ok (.brk e) env') := fun _ => rfl
+      have := tracedAtL_bind_ok (f := fun st => match st with
+        | Status.done => (do wrapFailAt c.cfg.path invalidLoc flushM; pure Status.done : M Status)
+        | st => pure st) h h2
+      rw [List.append_nil] at this
+      exact this
+    | cont e =>
+      have h2 : TracedAtL (pure (Status.cont e) : M Status) env' [] (.ok (.cont e) env') := fun _ => rfl
+      have := tracedAtL_bind_ok (f := fun st => match st with
+        | Status.done => (do wrapFailAt c.cfg.path invalidLoc flushM; pure Status.done : M Status)
+        | st => pure st) h h2
+      rw [List.append_nil] at this
+      exact this
+  | err e => exact tracedAtL_bind_err h
+  | panic w => exact tracedAtL_bind_panic h
+  | unmodelled w => exact tracedAtL_bind_unmodelled h
+
+/-- the calls `Render` makes on its writer when the root sequence performs `ops` and ends with `o` -/
+def rootCalls (ops : List WOp) : EOut Status → List Bytes
+  | .ok .done _ => writeCalls ops
+  | _ => (TW.run {} ops).2
+
+theorem renderRoot_calls_of_traced (c : RCtx) (root : List Node) (env : Env) (ops : List WOp) (o : EOut Status)
+    (h : TracedAtL (renderList c root) env ops o) : (renderRoot c root env).calls = rootCalls ops o := by
+  rw [← Prog.runLog_fst, renderRoot_eq_blockBody, Prog.runLog_bind]
+  cases o with
+  | ok st env' =>
+    cases st with
+    | done =>
+      rw [tracedAtL_blockBody_done c root env env' ops h {}]
+      simp [EOut.withTw, Prog.runLog, rootCalls, writeCalls]
+    | brk e =>
+      rw [tracedAtL_blockBody_other c root env ops _ h (by intro _ h; cases h) {}]
+      simp [EOut.withTw, Prog.runLog, rootCalls]
+    | cont e =>
+      rw [tracedAtL_blockBody_other c root env ops _ h (by intro _ h; cases h) {}]
+      simp [EOut.withTw, Prog.runLog, rootCalls]
+  | err e =>
+    rw [tracedAtL_blockBody_other c root env ops _ h (by intro _ h; cases h) {}]
+    simp [EOut.withTw, rootCalls]
+  | panic w =>
+    rw [tracedAtL_blockBody_other c root env ops _ h (by intro _ h; cases h) {}]
+    simp [EOut.withTw, rootCalls]
+  | unmodelled w =>
+    rw [tracedAtL_blockBody_other c root env ops _ h (by intro _ h; cases h) {}]
+    simp [EOut.withTw, rootCalls]
